@@ -99,9 +99,14 @@ def unit_size(codec):
     return len(nl('unix', codec))
 
 
-def find_aligned(data, needle, unit, start=0):
+def find_aligned(data, needle, unit, start=0, origin=None):
+    """First occurrence of needle at or after `start` whose offset from
+    `origin` (default: start) is a multiple of `unit`. Returns an absolute
+    index (no slicing: linear time on large inputs)."""
+    if origin is None:
+        origin = start
     i = data.find(needle, start)
-    while i != -1 and unit > 1 and i % unit:
+    while i != -1 and unit > 1 and (i - origin) % unit:
         i = data.find(needle, i + 1)
     return i
 
@@ -168,13 +173,13 @@ def split_indented(body, nlb, unit, indent, sig=b'', exact=False):
         off = start
         if first and sig and body.startswith(sig, start):
             off += len(sig)
-        i = find_aligned(body[off:], nlb, unit)
+        i = find_aligned(body, nlb, unit, off)
         if i < 0:
             raw.append(body[pos:])
             stripped.append(body[start:])
             terminated = False
             break
-        end = off + i + len(nlb)
+        end = i + len(nlb)
         raw.append(body[pos:end])
         stripped.append(body[start:end])
         pos = end
